@@ -2,8 +2,9 @@
 from corr import corr_mesh
 import implsearch as IS
 
-MODULES = ["PyFV.Props.C10", "PyFV.Props.GenEqVol"]
-TRANSLATORS = {"T-num": "python3 harness/translate/tnum.py lean/PyFV/Gen/Stencils.lean"}
+MODULES = ["PyFV.Props.C10", "PyFV.Props.GenEqVol", "PyFV.Props.GenEqMesh"]
+TRANSLATORS = {"T-num": "python3 harness/translate/tnum.py lean/PyFV/Gen/Stencils.lean",
+               "T-mesh": "python3 harness/translate/tmesh.py lean/PyFV/Gen/MeshGen.lean"}
 EXTRA_TRUST = ["Real.cos / Real.pi of Mathlib give the meaning of the θ-factor in the SphericalGrid3D counterexample; elsewhere sin/cos/π are parameters"]
 
 
@@ -13,6 +14,8 @@ def corr(rng, tier):
 
 def search(rng, tier, broken, cases):
     S = IS.search_c10(rng, 72 if tier == "quick" and not broken else 720)
+    import c16
+    c16.search_labels(rng, tier, pid="C10", S=S)     # labels of coordinates and FaceVariable components (table shared with C16)
     import dtypesearch
     dtypesearch.search_dtype(rng, 12 if tier == "quick" and not broken else 60, ['mesh'], pid="C10", S=S)   # same numbers typed int64 vs float64
     return S.violations, S.stats()
